@@ -25,7 +25,7 @@ def probe_desc(branches):
     Returns (desc, names) with names[k] = component name of branch k."""
     comps, src, names = [], {}, []
     for b in branches:
-        if b["v"] not in src:
+        if b["kind"] != "source" and b["v"] not in src:
             src[b["v"]] = "S%d" % len(src)
             comps.append({"name": src[b["v"]], "kind": "source", "args": {"vo": b["v"]}, "parents": []})
     for k, b in enumerate(branches):
